@@ -39,7 +39,7 @@ Lemma consts_ok :
 Proof. repeat split; reflexivity. Qed.
 
 Lemma nonce_mix_length h : length (nonce_mix h) = 24%nat.
-Proof. unfold nonce_mix. rewrite map_length, seq_length. reflexivity. Qed.
+Proof. apply fapp_length. Qed.
 Lemma msg_nonce_length ctx mpub : length (msg_nonce ctx mpub) = 24%nat.
 Proof. apply nonce_mix_length. Qed.
 Lemma edpub_length s : length (edpub s) = 32%nat.
@@ -183,3 +183,268 @@ Section Regions.
     rewrite wrap_length by apply edpub_length. lia.
   Qed.
 End Regions.
+
+(* ---- round trip, wrong key, wrong context ---- *)
+Lemma skipn_add {A} a b (l : list A) : skipn a (skipn b l) = skipn (b + a) l.
+Proof.
+  revert l; induction b as [|b IH]; intros l; [reflexivity|].
+  destruct l as [|x l]; [destruct a; reflexivity|]. cbn [skipn Nat.add]. apply IH.
+Qed.
+
+Lemma list1_inj {A} (a a' : A) : [a] = [a'] -> a = a'.
+Proof. intros H; injection H; auto. Qed.
+Lemma list2_inj {A} (a b a' b' : A) : [a; b] = [a'; b'] -> a = a' /\ b = b'.
+Proof. intros H; injection H; auto. Qed.
+Lemma list4_inj {A} (a b c d a' b' c' d' : A) :
+  [a; b; c; d] = [a'; b'; c'; d'] -> a = a' /\ b = b' /\ c = c' /\ d = d'.
+Proof. intros H; injection H; auto. Qed.
+Lemma F_pack_inj f l i f' l' i' : F f (map pack l) i = F f' (map pack l') i' -> f = f' /\ l = l'.
+Proof. intros H. injection H as Hf Hm _. split; [exact Hf|apply map_pack_inj, Hm]. Qed.
+Lemma aes_enc_inj k b k' b' : aes_enc k b = aes_enc k' b' -> k = k' /\ b = b'.
+Proof.
+  unfold aes_enc. intros H. apply fapp_inj in H; [|lia]. destruct H as (_ & _ & H). apply list2_inj, H.
+Qed.
+
+Lemma fapp_in_head f n l : (0 < n)%nat -> In (F f (map pack l) 0%nat) (fapp f n l).
+Proof. intros H. destruct n as [|n]; [lia|]. rewrite fapp_head. left. reflexivity. Qed.
+
+Lemma edpub_inj a b : edpub a = edpub b -> a = b.
+Proof.
+  unfold edpub. intros H. apply fapp_inj in H; [|lia]. destruct H as (_ & _ & H). apply list1_inj, H.
+Qed.
+
+Lemma wrap_key_inj ctx tpub p4 ctx' tpub' p4' :
+  length tpub = length tpub' -> wrap_key ctx tpub p4 = wrap_key ctx' tpub' p4' ->
+  ctx = ctx' /\ tpub = tpub' /\ p4 = p4'.
+Proof.
+  unfold wrap_key, kdf. intros HL H. apply fapp_inj in H; [|lia]. destruct H as (_ & _ & H).
+  injection H as H1 H2. apply app_eq_len in H2; [tauto|exact HL].
+Qed.
+
+Lemma arg1_mont pt : arg1 FN_MONT 32 (mont pt) = Some pt.
+Proof. unfold mont. apply arg1_fapp. lia. Qed.
+
+Lemma arg1_edpub_aesd l r : arg1 FN_EDPUB 32 (fapp FN_AESD 16 l ++ r) = None.
+Proof.
+  destruct (arg1 FN_EDPUB 32 (fapp FN_AESD 16 l ++ r)) as [x|] eqn:E; [|reflexivity].
+  apply arg1_spec in E. apply (f_equal (firstn 16)) in E.
+  rewrite firstn_app_exact in E by apply fapp_length. rewrite firstn_fapp in E by lia.
+  apply fapp_inj in E; [|lia]. destruct E as (E & _). discriminate.
+Qed.
+
+Lemma decrypt_encrypt o sk ctx m :
+  honest_orc o -> decrypt o sk ctx (enc_ct o (edpub sk) ctx m) = Ok m.
+Proof.
+  intros HO. rewrite decrypt_eq. unfold decrypt_flat.
+  pose proof (enc_ct_length o (edpub sk) ctx m) as HL.
+  replace (length _ <? 36)%nat with false by (symmetry; apply Nat.ltb_ge; exact HL).
+  cbv zeta. rewrite enc_ct_p4, enc_ct_w, enc_ct_body.
+  rewrite unwrap_wrap by apply edpub_length.
+  rewrite HO. cbn [negb].
+  rewrite (dh_comm sk). rewrite open_seal. rewrite s2dec_enc. rewrite HO. cbn [negb].
+  replace (sbytes_eqb _ _) with true; [reflexivity|]. symmetry; apply sbytes_eqb_spec; reflexivity.
+Qed.
+
+Lemma decrypt_wrong o sk sk' ctx ctx' m :
+  sk' <> sk \/ ctx' <> ctx -> exists k, decrypt o sk' ctx' (enc_ct o (edpub sk) ctx m) = Err k.
+Proof.
+  intros HN. rewrite decrypt_eq. unfold decrypt_flat.
+  pose proof (enc_ct_length o (edpub sk) ctx m) as HL.
+  replace (length _ <? 36)%nat with false by (symmetry; apply Nat.ltb_ge; exact HL).
+  cbv zeta. rewrite enc_ct_p4, enc_ct_w, enc_ct_body.
+  set (seed := msg_seed ctx m (edpub sk)). set (mpub := edpub seed). set (nonce := msg_nonce ctx mpub).
+  set (akey := wrap_key ctx (edpub sk) (firstn 4 nonce)).
+  set (akey' := wrap_key ctx' (edpub sk') (firstn 4 nonce)).
+  assert (HK : akey' <> akey).
+  { intros E. apply wrap_key_inj in E; [|rewrite !edpub_length; reflexivity].
+    destruct E as (E1 & E2 & _). apply edpub_inj in E2. destruct HN; congruence. }
+  unfold unwrap, wrap. rewrite firstn_app_exact, skipn_app_exact by apply aes_enc_length.
+  destruct (aes_dec_cases akey' (aes_enc akey (firstn 16 mpub))) as [(b & Hb & _ & _)|Hs].
+  { apply aes_enc_inj in Hb. destruct Hb as [Hb _]. congruence. }
+  rewrite Hs. set (mpub' := fapp FN_AESD 16 _ ++ skipn 16 mpub).
+  destruct (o_valid o mpub'); cbn [negb]; [|eexists; reflexivity].
+  destruct (open _ _ _ _) eqn:EO; [|eexists; reflexivity].
+  exfalso. apply open_spec in EO. apply seal_inj in EO. destruct EO as (EK & _).
+  symmetry in EK. revert EK. apply dh_raw_ne_honest. right. exists mpub'. split; [apply arg1_mont|].
+  apply arg1_edpub_aesd.
+Qed.
+
+(* the interface used by the envelope model and by WebRTC signalling *)
+Lemma dec_enc_spec o : honest_orc o -> forall sk sk' ctx ctx' m c,
+  encrypt o (edpub sk) ctx m = Ok c ->
+  (sk' = sk -> ctx' = ctx -> decrypt o sk' ctx' c = Ok m) /\
+  (sk' <> sk \/ ctx' <> ctx -> exists k, decrypt o sk' ctx' c = Err k).
+Proof.
+  intros HO sk sk' ctx ctx' m c HE. apply encrypt_ok_inv in HE. destruct HE as (_ & _ & ->). split.
+  - intros -> ->. apply decrypt_encrypt, HO.
+  - apply decrypt_wrong.
+Qed.
+
+(* ---- any modification of the ciphertext is rejected ---- *)
+(* c' is built from arbitrary bytes and from bytes of c: every AEAD / AES
+   output byte in c' is a byte of c (the attacker holds no key) *)
+Definition keyed_from (c c' : sbytes) : Prop :=
+  forall x, In x c' -> is_keyed_out x = true -> In x c.
+
+Lemma keyed_in_enc_ct o tpub ctx m x :
+  In x (enc_ct o tpub ctx m) -> is_keyed_out x = true ->
+  let seed := msg_seed ctx m tpub in let mpub := edpub seed in let nonce := msg_nonce ctx mpub in
+  In x (aes_enc (wrap_key ctx tpub (firstn 4 nonce)) (firstn 16 mpub)) \/
+  In x (seal (dh seed (mont tpub)) nonce mpub (s2enc (o_s2len o m) m)).
+Proof.
+  intros HI HK. cbv zeta. unfold enc_ct in HI. cbv zeta in HI.
+  apply in_app_or in HI. destruct HI as [HI|HI].
+  { exfalso. apply in_firstn in HI. unfold msg_nonce, nonce_mix in HI. apply in_fapp in HI.
+    destruct HI as (i & ->). discriminate. }
+  apply in_app_or in HI. destruct HI as [HI|HI]; [|right; exact HI].
+  unfold wrap in HI. apply in_app_or in HI. destruct HI as [HI|HI]; [left; exact HI|].
+  exfalso. apply in_skipn in HI. apply in_fapp in HI. destruct HI as (i & ->). discriminate.
+Qed.
+
+Lemma mutation_rejected o tpub ctx m c' sk' ctx' m' :
+  length tpub = 32%nat ->
+  keyed_from (enc_ct o tpub ctx m) c' ->
+  decrypt o sk' ctx' c' = Ok m' ->
+  c' = enc_ct o tpub ctx m.
+Proof.
+  intros HT HF HD. rewrite decrypt_eq in HD. unfold decrypt_flat in HD.
+  destruct (length c' <? 36)%nat eqn:EL; [discriminate|]. apply Nat.ltb_ge in EL.
+  cbv zeta in HD.
+  set (w' := firstn 32 (skipn 4 c')) in *.
+  set (akey' := wrap_key ctx' (edpub sk') (firstn 4 c')) in *.
+  set (mpub' := unwrap akey' w') in *.
+  destruct (o_valid o mpub'); cbn [negb] in HD; [|discriminate].
+  destruct (open _ _ _ _) as [pt'|] eqn:EO; [|discriminate]. clear HD.
+  apply open_spec in EO.
+  set (seed := msg_seed ctx m tpub) in *. set (mpub := edpub seed) in *.
+  set (nonce := msg_nonce ctx mpub) in *.
+  set (akey := wrap_key ctx tpub (firstn 4 nonce)) in *.
+  set (c := enc_ct o tpub ctx m) in *.
+  assert (Hw' : length w' = 32%nat).
+  { unfold w'. apply firstn_length_le. rewrite skipn_length. lia. }
+  (* the body is the honest body *)
+  assert (HB : dh sk' (mont mpub') = dh seed (mont tpub) /\ msg_nonce ctx' mpub' = nonce /\ mpub' = mpub /\
+               pt' = s2enc (o_s2len o m) m).
+  { assert (HI : In (F FN_SEAL (map pack [dh sk' (mont mpub'); msg_nonce ctx' mpub'; mpub'; pt']) 0%nat) c').
+    { apply (in_skipn 36). rewrite EO. apply fapp_in_head. unfold tag_len. lia. }
+    pose proof (HF _ HI eq_refl) as HI2. clear HI.
+    pose proof (keyed_in_enc_ct _ _ _ _ _ HI2 eq_refl) as HI. cbv zeta in HI. destruct HI as [HI|HI];
+      apply in_fapp in HI; destruct HI as (i & HI); apply F_pack_inj in HI; destruct HI as [Hf HA];
+      [discriminate Hf|].
+    apply list4_inj in HA. exact HA. }
+  destruct HB as (HK & HN & HM & HP).
+  assert (EB : skipn 36 c' = skipn 36 c).
+  { rewrite EO. unfold c. rewrite enc_ct_body. fold seed mpub nonce. rewrite HK, HN, HM, HP. reflexivity. }
+  (* the wrapped key is the honest wrapped key *)
+  unfold mpub', unwrap in HM.
+  rewrite <- (firstn_skipn 16 mpub) in HM.
+  apply app_eq_len in HM;
+    [|rewrite aes_dec_length; symmetry; apply firstn_length_le; unfold mpub; rewrite edpub_length; lia].
+  destruct HM as [HM1 HM2].
+  assert (HW : akey' = akey /\ firstn 16 w' = aes_enc akey (firstn 16 mpub)).
+  { destruct (aes_dec_cases akey' (firstn 16 w')) as [(b & Hc & Hb & Hd)|Hs].
+    - rewrite Hd in HM1. subst b.
+      assert (HI : In (F FN_AES (map pack [akey'; firstn 16 mpub]) 0%nat) c').
+      { apply (in_skipn 4), (in_firstn 32). fold w'. apply (in_firstn 16). rewrite Hc.
+        apply fapp_in_head. lia. }
+      pose proof (HF _ HI eq_refl) as HI2. clear HI.
+      pose proof (keyed_in_enc_ct _ _ _ _ _ HI2 eq_refl) as HI. cbv zeta in HI. destruct HI as [HI|HI];
+        apply in_fapp in HI; destruct HI as (i & HI); apply F_pack_inj in HI; destruct HI as [Hf HA];
+        [|discriminate Hf].
+      apply list2_inj in HA. destruct HA as [HA _]. fold seed mpub nonce akey in HA.
+      split; [exact HA|]. rewrite Hc, HA. reflexivity.
+    - exfalso. rewrite Hs in HM1. unfold mpub, edpub in HM1. rewrite firstn_fapp in HM1 by lia.
+      apply fapp_inj in HM1; [|lia]. destruct HM1 as (HM1 & _). discriminate. }
+  destruct HW as [HA HW].
+  unfold akey', akey in HA. apply wrap_key_inj in HA; [|rewrite edpub_length; auto].
+  destruct HA as (_ & _ & HP4).
+  (* assemble *)
+  assert (EC : c = firstn 4 nonce ++ (aes_enc akey (firstn 16 mpub) ++ skipn 16 mpub) ++ skipn 36 c).
+  { unfold c at 2. rewrite enc_ct_body. reflexivity. }
+  rewrite EC, <- EB.
+  rewrite <- (firstn_skipn 4 c') at 1. rewrite HP4. f_equal.
+  rewrite <- (firstn_skipn 32 (skipn 4 c')) at 1. fold w'. rewrite skipn_add. change (4 + 32)%nat with 36%nat.
+  f_equal. rewrite <- (firstn_skipn 16 w') at 1. rewrite HW, HM2. reflexivity.
+Qed.
+
+Lemma mutation_err o tpub ctx m c' sk' ctx' :
+  length tpub = 32%nat ->
+  keyed_from (enc_ct o tpub ctx m) c' ->
+  c' <> enc_ct o tpub ctx m ->
+  exists k, decrypt o sk' ctx' c' = Err k.
+Proof.
+  intros HT HF HN. destruct (decrypt o sk' ctx' c') as [m'| k |] eqn:E.
+  - exfalso. apply HN. eapply mutation_rejected; eauto.
+  - eauto.
+  - exfalso. eapply decrypt_total; eauto.
+Qed.
+
+(* ---- WebRTC signalling (C26) ---- *)
+Section SignalProofs.
+  Context {signal : Type} (marshal : signal -> bytes) (unmarshal : bytes -> option signal).
+  Hypothesis codec : forall s, unmarshal (marshal s) = Some s.
+
+  Lemma signal_roundtrip o sk s :
+    honest_orc o ->
+    exists c, encode_signal marshal o s (edpub sk) = Ok c /\ decode_signal unmarshal o c sk = Ok s.
+  Proof.
+    intros HO. unfold encode_signal, decode_signal, decode_with_ctx. rewrite encrypt_honest by exact HO.
+    eexists. split; [reflexivity|]. rewrite decrypt_encrypt by exact HO. cbn [obind].
+    rewrite unlift_lift, codec. reflexivity.
+  Qed.
+
+  Lemma signal_private o sk sk' ctx' s c :
+    honest_orc o ->
+    encode_signal marshal o s (edpub sk) = Ok c ->
+    sk' <> sk \/ ctx' <> lift webrtc_ctx ->
+    exists k, decode_with_ctx unmarshal o ctx' c sk' = Err k.
+  Proof.
+    intros HO HE HN. unfold encode_signal in HE.
+    destruct (dec_enc_spec o HO sk sk' (lift webrtc_ctx) ctx' _ c HE) as [_ H].
+    destruct (H HN) as [k Hk]. exists k. unfold decode_with_ctx. rewrite Hk. reflexivity.
+  Qed.
+
+  Lemma signal_decode_total o ctx msg sk : decode_with_ctx unmarshal o ctx msg sk <> Panic.
+  Proof.
+    unfold decode_with_ctx. destruct (decrypt o sk ctx msg) as [m|k|] eqn:E; cbn [obind].
+    - destruct (unlift m); [destruct (unmarshal _)|]; discriminate.
+    - discriminate.
+    - exfalso. eapply decrypt_total; eauto.
+  Qed.
+
+  (* a signal payload that was modified in transit is rejected *)
+  Lemma signal_tamper o pub s c c' sk' ctx' :
+    encode_signal marshal o s pub = Ok c -> keyed_from c c' -> c' <> c ->
+    exists k, decode_with_ctx unmarshal o ctx' c' sk' = Err k.
+  Proof.
+    intros HE HF HN. unfold encode_signal in HE. apply encrypt_ok_inv in HE. destruct HE as (HL & _ & ->).
+    destruct (mutation_err o pub (lift webrtc_ctx) (lift (marshal s)) c' sk' ctx' HL HF HN) as [k Hk].
+    exists k. unfold decode_with_ctx. rewrite Hk. reflexivity.
+  Qed.
+End SignalProofs.
+
+Lemma offerer_exclusive a b :
+  a <> b -> xorb (tracker_offerer a b) (tracker_offerer b a) = true.
+Proof.
+  intros H. unfold tracker_offerer, is_offerer. change args_local_first with true. cbv iota.
+  change (cmp_holds webrtc_offerer_cmp) with (fun c : comparison => match c with Lt => true | _ => false end).
+  cbv beta. rewrite (lex_cmp_antisym a b).
+  destruct (lex_cmp a b) eqn:E; cbn; try reflexivity. apply lex_cmp_eq in E. contradiction.
+Qed.
+
+Lemma offerer_irrefl a : tracker_offerer a a = false.
+Proof.
+  unfold tracker_offerer, is_offerer. change args_local_first with true. cbv iota.
+  change (cmp_holds webrtc_offerer_cmp) with (fun c : comparison => match c with Lt => true | _ => false end).
+  cbv beta. rewrite lex_cmp_refl. reflexivity.
+Qed.
+
+Lemma link_only_signalled offerer p r :
+  p <> [] -> link_accepted offerer p r = true -> r = p.
+Proof.
+  intros HP. unfold link_accepted.
+  change webrtc_listen_peer_arg with tracker_peer_expr. change webrtc_dial_peer_arg with tracker_peer_expr.
+  replace (if offerer then tracker_peer_expr else tracker_peer_expr) with tracker_peer_expr by (destruct offerer; reflexivity).
+  unfold sess_expected. rewrite bytes_eqb_refl. unfold quic_accepts.
+  destruct p as [|x p]; [contradiction|]. intros H. apply bytes_eqb_spec in H. auto.
+Qed.
